@@ -10,9 +10,12 @@ import (
 	"fmt"
 	"io"
 	"os"
+	"runtime"
 	"sort"
 	"strconv"
 	"strings"
+	"sync"
+	"time"
 )
 
 // Rng is splitmix64: every random choice of a run derives from VERIF_SEED.
@@ -182,7 +185,63 @@ func NewCtx(in io.Reader, out io.Writer) *Ctx {
 }
 
 // Next returns the next op; ok=false at end of input. A "reset" verb starts a new scenario.
+// watchdog: an operation that does not return within VERIF_OP_TIMEOUT seconds (default 180) means the code under test
+// hangs (a deadlock, a wait nothing will ever end).  The process then ends with a goroutine dump, and the check reports
+// the scenario being executed as the failing input instead of waiting for its own much longer time limit.
+var (
+	wdMu   sync.Mutex
+	wdOp   string
+	wdSeq  uint64
+	wdOnce sync.Once
+)
+
+func watchdogArm(line string) {
+	limit := 180 * time.Second
+	if v := os.Getenv("VERIF_OP_TIMEOUT"); v != "" {
+		if n, err := strconv.Atoi(v); err == nil && n > 0 {
+			limit = time.Duration(n) * time.Second
+		}
+	}
+	wdMu.Lock()
+	wdOp = line
+	wdSeq++
+	wdMu.Unlock()
+	wdOnce.Do(func() {
+		go func() {
+			var last uint64
+			var since time.Time
+			for {
+				time.Sleep(time.Second)
+				wdMu.Lock()
+				seq, op := wdSeq, wdOp
+				wdMu.Unlock()
+				if seq != last {
+					last, since = seq, time.Now()
+					continue
+				}
+				if op != "" && time.Since(since) > limit {
+					buf := make([]byte, 1<<20)
+					n := runtime.Stack(buf, true)
+					if len(op) > 300 {
+						op = op[:300]
+					}
+					fmt.Fprintf(os.Stderr, "fatal error: verif watchdog: operation did not return within %v: %s\n%s\n", limit, op, buf[:n])
+					os.Exit(3)
+				}
+			}
+		}()
+	})
+}
+
+func watchdogDisarm() {
+	wdMu.Lock()
+	wdOp = ""
+	wdSeq++
+	wdMu.Unlock()
+}
+
 func (c *Ctx) Next() (Op, bool) {
+	watchdogDisarm()
 	for c.in.Scan() {
 		line := strings.TrimSpace(c.in.Text())
 		if line == "" || strings.HasPrefix(line, "#") {
@@ -196,6 +255,7 @@ func (c *Ctx) Next() (Op, bool) {
 		}
 		c.cur = append(c.cur, line)
 		c.St.Ops++
+		watchdogArm(line)
 		return op, true
 	}
 	return Op{}, false
